@@ -169,10 +169,11 @@ def softmax : P String := do
   if n == 0 then return "skip empty" else
   let qf := fn q
   let ex := if AITB.Gen.C09.smSubtractMax then es else e
-  if ex.any (fun x => match x with | .nan | .ninf => true | _ => false) then return "skip exp_nan" else
-  let inf := fun i => isInfX (ex.getD i (.fin 0))
-  let ef := fun i => finOr0 (ex.getD i (.fin 0))
   let deleg := smDelegates t
+  -- (with T ~ 0 the members delegate to the greedy wrapper before any exponential is taken)
+  if !deleg && ex.any (fun x => match x with | .nan | .ninf => true | _ => false) then return "skip exp_nan" else
+  let inf := fun i => !deleg && isInfX (ex.getD i (.fin 0))
+  let ef := fun i => finOr0 (ex.getD i (.fin 0))
   let v : Verdict := { tag := if deleg then "softmax greedy" else if (List.range n).any inf then "softmax inf" else "softmax" }
   let (v, probs) := xrow v comp "query" probsX
   let (v, policy) := xrow v comp "table" policyX
